@@ -86,6 +86,8 @@ DonateEv(ev, t) ==
 
 \* is the script exactly <<repay x>> ?
 IsSingleRepay(sub, x) == Len(sub) = 1 /\ sub[1].a = "repay" /\ sub[1].x = x
+\* ... or a single repayment of at least x that the borrower can afford
+IsSingleRepayAtLeast(sub, x, afford) == Len(sub) = 1 /\ sub[1].a = "repay" /\ x \preceq sub[1].x /\ sub[1].x \preceq afford
 
 \* "the quoted payback amount" is what GetPaybackAmount answers: the loan plus each fee = floor(share * loan).  The
 \* clauses about exact repayment are stated on the specification's own Payback; this one ties the quote to it.
@@ -102,7 +104,7 @@ LoanEv(ev, t) ==
       valid == st.tog.l /\ Zero \prec amt /\ amt \preceq st.bal
   IN QuoteChecks(ev.pre.quote, amt) \o
      << <<"C06.exact-payback-suffices",
-           (valid /\ IsSingleRepay(sub, Payback(st, amt)) /\ Payback(st, amt) \preceq (st.aw ++ amt)) => ev.res = "ok">>,
+           (valid /\ IsSingleRepayAtLeast(sub, Payback(st, amt), st.aw ++ amt)) => ev.res = "ok">>,
         <<"C06.one-unit-less-never-suffices",
            (valid /\ IsSingleRepay(sub, Payback(st, amt) -- One)) => ev.res # "ok">>,
         <<"drift.tx.verdict", pred.ok = (ev.res = "ok")>> >>
@@ -118,7 +120,10 @@ RouterLoanEv(ev, t) ==
       fees == Payback(st, amt) -- amt
   IN QuoteChecks(ev.pre.quote, amt) \o
      << <<"C06.router.fees-only-suffice",
-           (valid /\ st.rb = Zero /\ IsSingleRepay(sub, fees) /\ Zero \prec fees /\ fees \preceq st.aw) => ev.res = "ok">>,
+           \* (the borrower hands the router the fees, or more: the router still holds the loan itself)
+           (valid /\ st.rb = Zero /\ Zero \prec fees /\ IsSingleRepayAtLeast(sub, fees, st.aw)) => ev.res = "ok">>,
+        <<"C06.router.one-unit-less-never-suffices",
+           (valid /\ st.rb = Zero /\ Zero \prec fees /\ IsSingleRepay(sub, fees -- One)) => ev.res # "ok">>,
         <<"drift.tx.verdict", pred.ok = (ev.res = "ok")>> >>
      \o (IF ev.res = "ok"
          THEN LoanTxChecks(st, t, script)
